@@ -80,6 +80,7 @@ sorted_view_(nullptr)
 template<typename T, typename C, typename A>
 req_sketch<T, C, A>& req_sketch<T, C, A>::operator=(const req_sketch& other) {
   req_sketch copy(other);
+  reset_sorted_view(); // release the cached view through the allocator that allocated it
   std::swap(comparator_, copy.comparator_);
   std::swap(allocator_, copy.allocator_);
   std::swap(k_, copy.k_);
@@ -90,12 +91,12 @@ req_sketch<T, C, A>& req_sketch<T, C, A>::operator=(const req_sketch& other) {
   std::swap(compactors_, copy.compactors_);
   std::swap(min_item_, copy.min_item_);
   std::swap(max_item_, copy.max_item_);
-  reset_sorted_view();
   return *this;
 }
 
 template<typename T, typename C, typename A>
 req_sketch<T, C, A>& req_sketch<T, C, A>::operator=(req_sketch&& other) {
+  reset_sorted_view(); // release the cached view through the allocator that allocated it
   std::swap(comparator_, other.comparator_);
   std::swap(allocator_, other.allocator_);
   std::swap(k_, other.k_);
@@ -106,7 +107,6 @@ req_sketch<T, C, A>& req_sketch<T, C, A>::operator=(req_sketch&& other) {
   std::swap(compactors_, other.compactors_);
   std::swap(min_item_, other.min_item_);
   std::swap(max_item_, other.max_item_);
-  reset_sorted_view();
   return *this;
 }
 
